@@ -630,7 +630,7 @@ def text_states(thorough):
     for v in itertools.product(EDITS, repeat=3):
         if v == ("-", "-", "-"):
             continue
-        extras = [(), (("rename", "a", "c"),), (("chmod", "a"),), (("rename", "a", "d/a"), ("chmod", "a"))]
+        extras = [(), (("rename", "a", "c"),), (("chmod", "a"),), (("chmod", "a"), ("rename", "a", "d/a"))]
         if not thorough:
             extras = extras[:1] if sum(1 for e in v if e != "-") == 3 else extras[:2]
         for ex in extras:
